@@ -236,13 +236,13 @@ def run_entry_points(rec) -> dict:
         return res
 
     if len(eps) > 1:
-        st, val = forked(together, timeout=40)
+        st, val = forked(together, timeout=300)
         if st == 'ok' and isinstance(val, dict):
             for name, _ in eps:
                 res = val[name]
                 out[name] = (classify(res), (res[1][2] if res[0] == 'exc' else '')[:200])
             return out
     for name, fn in eps:
-        res = forked(fn, timeout=20)
+        res = forked(fn, timeout=200)
         out[name] = (classify(res), (res[1][2] if res[0] == 'exc' else '')[:200])
     return out
